@@ -6,6 +6,7 @@ if ! git diff --quiet; then echo "repo dirty; abort"; exit 3; fi
 trap 'git -C /repo checkout -- . >/dev/null 2>&1' EXIT
 for d in /verif/seeded/*/; do
   id=$(basename $d)
+  if [ -f $d/result.json ] && [ -z "${FORCE:-}" ]; then continue; fi
   props=$(python3 -c "import json;m=json.load(open('$d/meta.json'));print(' '.join(m.get('detected_by',{}).keys()))")
   git apply $d/patch.diff || { echo "[$id] patch does not apply"; continue; }
   res="{"
